@@ -275,6 +275,10 @@ def run(ctx: Ctx) -> None:
     rng = ctx.rng
     cases = []
     for e in getattr(ctx, "fixed_witnesses", []):
+        if isinstance(e.get("witness"), dict) and e["witness"].get("kind") == "api":
+            from props import api as _api          # a history of API calls kept from a seeded change
+            _api.process(ctx, [e["witness"]], oracles=True); ctx.corpus_cases += 1
+            continue
         cases.append(e["witness"]); ctx.corpus_cases += 1
     for _ in range(ctx.n(1500, 20000)):
         cases.append({"kind": "order", "d": enc(gen.tree_dict(rng, rng.randint(1, 5), rng.randint(1, 6)))})
